@@ -5,12 +5,15 @@ package c03
 import (
 	"bufio"
 	"bytes"
+	"errors"
 	"fmt"
 	"io"
 	"net"
 	"net/http"
+	"net/url"
 	"strings"
 	"sync"
+	"sync/atomic"
 	"testing"
 	"time"
 
@@ -52,6 +55,26 @@ type Case struct {
 	ConnectFirst bool `json:"connect_first,omitempty"`
 	// Shaped: the proxy is served on a trafficshape.Listener without shapes.
 	Shaped bool `json:"shaped,omitempty"`
+	// Downstream (with ConnectFirst): the proxy reaches everything through a
+	// downstream proxy, and it is that proxy which fails on the CONNECT: its
+	// connection is closed/reset on accept, it answers with non-HTTP bytes, or
+	// its "200 Connection established" head is cut at offset Cut (kind truncate,
+	// framing connect-200). Ordinary requests through it are answered properly.
+	Downstream bool `json:"downstream,omitempty"`
+	// Kind rt-error: the round tripper the embedding program installed fails for
+	// request 1 without touching the request body (as a circuit breaker does).
+}
+
+// failingRT fails for one host without reading the request.
+type failingRT struct {
+	next http.RoundTripper
+}
+
+func (f failingRT) RoundTrip(req *http.Request) (*http.Response, error) {
+	if strings.HasPrefix(req.URL.Host, "faulty.test") {
+		return nil, errors.New("verif: upstream circuit open")
+	}
+	return f.next.RoundTrip(req)
 }
 
 const marker2 = "MARKER-TWO-7f3a91c2"
@@ -59,6 +82,10 @@ const marker3 = "MARKER-THREE-55e0b7"
 
 func (c *Case) template() (raw []byte, headLen int) {
 	var b bytes.Buffer
+	if c.Framing == "connect-200" {
+		b.WriteString("HTTP/1.1 200 Connection established\r\nVia: 1.1 downstream.test\r\n\r\n")
+		return b.Bytes(), b.Len()
+	}
 	b.WriteString("HTTP/1.1 200 OK\r\n")
 	if c.Pad > 0 {
 		fmt.Fprintf(&b, "X-Pad: %s\r\n", kit.Text(7, c.Pad))
@@ -180,12 +207,23 @@ func (r *recConn) bytes() []byte {
 func shape(c Case, headLen, total int) string {
 	switch c.Kind {
 	case "dial":
+		if c.Downstream {
+			return "connect-downstream-dial-" + c.Dial
+		}
 		if c.ConnectFirst {
 			return "connect-dial-" + c.Dial
 		}
 		return "dial-" + c.Dial
 	case "nonhttp":
+		if c.Downstream {
+			return "connect-downstream-nonhttp-" + c.Payload
+		}
 		return "nonhttp-" + c.Payload
+	case "rt-error":
+		return "round-tripper-error"
+	}
+	if c.Downstream {
+		return "connect-downstream-answer-cut"
 	}
 	pos := "post-head"
 	switch {
@@ -241,6 +279,14 @@ func runOnce(c Case, T time.Duration) (v kit.Verdict) {
 	})
 	defer healthy.Close()
 	faulty := netkit.NewOrigin(func(r *netkit.ReqLog) netkit.Script {
+		if c.Downstream && r.Method != "CONNECT" {
+			// the downstream proxy relays ordinary requests properly
+			m := marker2
+			if r.Path == "/third" {
+				m = marker3
+			}
+			return netkit.Script{Raw: []byte(fmt.Sprintf("HTTP/1.1 200 OK\r\nContent-Length: %d\r\nX-Healthy: yes\r\n\r\n%s", len(m), m)), CutAt: -1}
+		}
 		switch c.Kind {
 		case "nonhttp":
 			return netkit.Script{Raw: c.payload(), CutAt: -1, After: "close"}
@@ -253,8 +299,11 @@ func runOnce(c Case, T time.Duration) (v kit.Verdict) {
 		}
 	})
 	defer faulty.Close()
-	if c.Kind == "dial" {
+	if c.Kind == "dial" && !(c.Downstream && c.Dial == "refused") {
 		faulty.AcceptHook = func(idx int, conn net.Conn) bool {
+			if c.Downstream && idx > 0 {
+				return false // only the connection made for the CONNECT is dropped
+			}
 			if c.Dial == "accept-rst" {
 				netkit.Reset(conn)
 			} else {
@@ -263,10 +312,13 @@ func runOnce(c Case, T time.Duration) (v kit.Verdict) {
 			return true
 		}
 	}
+	var downDials int32
 	dialer := &netkit.Dialer{Route: func(addr string) string {
-		if strings.HasPrefix(addr, "faulty.test") {
+		if strings.HasPrefix(addr, "faulty.test") || strings.HasPrefix(addr, "downstream.test") {
 			if c.Kind == "dial" && c.Dial == "refused" {
-				return ""
+				if !c.Downstream || atomic.AddInt32(&downDials, 1) == 1 {
+					return "" // (a downstream proxy is unreachable for the CONNECT only)
+				}
 			}
 			return faulty.Addr
 		}
@@ -275,6 +327,12 @@ func runOnce(c Case, T time.Duration) (v kit.Verdict) {
 	p := martian.NewProxy()
 	p.SetTimeout(60 * time.Second)
 	p.SetDial(dialer.Dial)
+	if c.Downstream {
+		p.SetDownstreamProxy(&url.URL{Scheme: "http", Host: "downstream.test:3128"})
+	}
+	if c.Kind == "rt-error" {
+		p.SetRoundTripper(failingRT{p.GetRoundTripper()})
+	}
 	stamp := martian.ResponseModifierFunc(func(res *http.Response) error {
 		res.Header.Set("X-Verif-Resmod", "1")
 		return nil
@@ -309,7 +367,11 @@ func runOnce(c Case, T time.Duration) (v kit.Verdict) {
 	req1 := "GET http://faulty.test/first HTTP/1.1\r\nHost: faulty.test\r\n\r\n"
 	method1 := "GET"
 	if c.Post {
-		req1 = "POST http://faulty.test/first HTTP/1.1\r\nHost: faulty.test\r\nContent-Length: 5\r\n\r\nhello"
+		pbody := "hello"
+		if c.Seed%3 == 2 {
+			pbody = string(kit.Text(c.Seed, 6000)) // does not fit the proxy's read buffer
+		}
+		req1 = fmt.Sprintf("POST http://faulty.test/first HTTP/1.1\r\nHost: faulty.test\r\nContent-Length: %d\r\n\r\n%s", len(pbody), pbody)
 		method1 = "POST"
 	}
 	if c.ConnectFirst {
@@ -358,7 +420,7 @@ func runOnce(c Case, T time.Duration) (v kit.Verdict) {
 		}
 		b2, st2, _ := readBody(res2)
 		if res2.StatusCode != 200 || st2 != "complete" || string(b2) != marker2 || res2.Header.Get("X-Verif-Resmod") != "1" {
-			v.Addf(sig("second-response-wrong-after-"+after), "response 2 after a %s: status %d, body %q (%s), resmod stamp %q", after, res2.StatusCode, trunc(b2, 80), st2, res2.Header.Get("X-Verif-Resmod"))
+			v.Addf(sig("second-response-wrong-after-"+after), "response 2 after a %s: status %d, body %q (%s), resmod stamp %q, Warning %q", after, res2.StatusCode, trunc(b2, 80), st2, res2.Header.Get("X-Verif-Resmod"), res2.Header["Warning"])
 		}
 	}
 
@@ -476,7 +538,7 @@ func trunc(b []byte, n int) []byte {
 }
 
 func nontrivial(c Case) bool {
-	if c.Kind == "nonhttp" || c.Kind == "dial" {
+	if c.Kind == "nonhttp" || c.Kind == "dial" || c.Kind == "rt-error" {
 		return true
 	}
 	raw, _ := c.template()
@@ -492,6 +554,12 @@ func classes(c Case) []string {
 	if c.Shaped {
 		out = append(out, "traffic-shaped-listener")
 	}
+	if c.Downstream {
+		out = append(out, "failing-downstream-proxy")
+	}
+	if c.Post && (c.Kind == "dial" || c.Kind == "rt-error") {
+		out = append(out, "request-body-nobody-read")
+	}
 	return out
 }
 
@@ -506,7 +574,7 @@ var propMatrix = &kit.Prop[Case]{ID: "C03", Name: "dial-and-nonhttp-matrix", Rul
 var propFaults = &kit.Prop[Case]{ID: "C03", Name: "faults", Rule: "rapid-drawn: larger templates (bodies to 5000 bytes, padded heads), sampled offsets biased to head end, chunk boundaries and body end; " + rule,
 	Run: run, NonTrivial: nontrivial, Classes: classes, Journal: true,
 	Gen: func(t *rapid.T) Case {
-		kind := rapid.SampledFrom([]string{"truncate", "truncate", "truncate", "truncate", "dial", "nonhttp"}).Draw(t, "kind")
+		kind := rapid.SampledFrom([]string{"truncate", "truncate", "truncate", "truncate", "dial", "nonhttp", "rt-error"}).Draw(t, "kind")
 		c := Case{Kind: kind, Post: rapid.Bool().Draw(t, "post"), Seed: rapid.Uint64Range(1, 1<<16).Draw(t, "seed"), Logger: rapid.IntRange(0, 2).Draw(t, "logger") == 0, Shaped: rapid.IntRange(0, 4).Draw(t, "shaped") == 0}
 		switch kind {
 		case "dial":
@@ -516,6 +584,7 @@ var propFaults = &kit.Prop[Case]{ID: "C03", Name: "faults", Rule: "rapid-drawn: 
 			}
 		case "nonhttp":
 			c.Payload = rapid.SampledFrom(payloads).Draw(t, "payload")
+		case "rt-error":
 		default:
 			c.Framing = rapid.SampledFrom([]string{"cl", "chunked"}).Draw(t, "framing")
 			c.Body = rapid.SampledFrom([]int{0, 1, 10, 100, 5000, 70000}).Draw(t, "body")
@@ -596,6 +665,36 @@ func TestDialAndNonHTTPMatrix(t *testing.T) {
 		}
 		if !yield(Case{Kind: "dial", Dial: "refused", ConnectFirst: true}) {
 			return
+		}
+		for _, post := range []bool{false, true} {
+			if !yield(Case{Kind: "rt-error", Post: post}) {
+				return
+			}
+		}
+		// the downstream proxy fails on the CONNECT
+		for _, d := range []string{"refused", "accept-close", "accept-rst"} {
+			if !yield(Case{Kind: "dial", Dial: d, ConnectFirst: true, Downstream: true}) {
+				return
+			}
+		}
+		for _, pl := range payloads {
+			if lenientOK[pl] {
+				continue
+			}
+			if !yield(Case{Kind: "nonhttp", Payload: pl, Seed: 5, ConnectFirst: true, Downstream: true}) {
+				return
+			}
+		}
+		base := Case{Kind: "truncate", Framing: "connect-200", ConnectFirst: true, Downstream: true}
+		raw, _ := base.template()
+		for _, end := range []string{"fin", "rst"} {
+			for k := 0; k < len(raw); k++ {
+				c := base
+				c.Cut, c.End = k, end
+				if !yield(c) {
+					return
+				}
+			}
 		}
 	})
 }
